@@ -1,7 +1,8 @@
 """Expression evaluation and the assumed contracts ("models") of library primitives for PyVC.
 
 Every model here is an ASSUMED contract of an external primitive (numpy, pandas, toolz, builtins); each is
-listed in the evidence and has a conformance test against the real library in vlib/pyvc/conformance.py.
+listed in the evidence; the ones with a non-trivial statement have a conformance test against the real library in
+vlib/pyvc/conformance.py (run inside the checks whose proofs use them).
 """
 
 from __future__ import annotations
